@@ -18,8 +18,8 @@
  * Output line (all fields always present, uniformly typed):
  *   e        "reset"|"open"|"read"|"write"|"wbyte"|"zero"|"discard"|"flush"|"close"|"blksize"|"cacheoff"|"cacheon"|
  *            "readahead".  With undo=1 the history is applied to the undo channel: every call is bracketed by
- *              {"e":"o_begin","op","a","b","tags"}  and  {"e":"o_end","op","ret","rc","data","bs","n1"}
- *            (bs = block size of the undo channel in granules, n1 = number of the last iotrace.so event so far), the
+ *              {"e":"o_begin","op","a","b","n0","tags"}  and  {"e":"o_end","op","ret","rc","data","bs","n1"}
+ *            (bs = block size of the undo channel in granules, n0 / n1 = number of the last iotrace.so event before / after the call), the
  *            nested calls undo_io makes on the unix channel are printed in between as ordinary lines, and the calls it
  *            makes on the undo file's channel as {"e":"u_blksize"|"u_read"|"u_write"|"u_flush"|"u_close","a","b","ret","rc"}
  *   a, b     arguments (granules for wbyte; blocks/count otherwise; bytes/GR for blksize)
@@ -227,7 +227,8 @@ static void line(const char *e, long long a, long long b, errcode_t rc, const ch
 /* a call made on the undo channel: what the caller asks for, and what it sees */
 static void obegin(const char *op, long long a, long long b, const char *wr, int nwr)
 {
-	printf("{\"e\":\"o_begin\",\"op\":\"%s\",\"a\":%lld,\"b\":%lld", op, a, b);
+	print_events_q(1);
+	printf("{\"e\":\"o_begin\",\"op\":\"%s\",\"a\":%lld,\"b\":%lld,\"n0\":%ld", op, a, b, last_n);
 	if (wr)
 		print_tags("tags", wr, nwr);
 	else
